@@ -267,6 +267,8 @@ Definition notfn_static_spec (v : Z) : bool := 0 <=? v.
 Definition wrapcopy_spec (x y : Z) : list Z * list bool * Z :=
   ([ 1000 * x + 10 * y + 1001; 1000 * x + 10 * y + 2002; 1000 * x + 10 * y + 2003; 1000 * x + 10 * y + 3004 ],
    [ x <=? y; x <=? y ], x + 2).
+(* [func.wrap.func.inv] INVOKE<R>(f, args...) with f a pointer to member: (obj.*f)(1), obj.*f *)
+Definition memptr_target_spec (x : Z) : Z * Z := (1 + x, 7).
 Definition void_ret_spec (x : Z) : Z := 3 * x + 3.
 (* [pairs.spec] make_pair: unwrap_ref_decay_t: reference_wrapper<X> -> X&, everything else decays *)
 Definition make_pair_member_spec (wrapped : option bool) : ty :=
